@@ -86,6 +86,17 @@ func lockScenarios(thorough bool) []atomSc {
 			l = append(l, atomSc{fmt.Sprintf("cli?locks=1&from=%d&to=%d&ref=%s&readers=%s", ch.from, ch.to, ch.ref, rd), b})
 		}
 	}
+	// two (thorough: also three) RefreshMetadata calls at the same time while every address fails, interleaved at lock
+	// acquisitions; then the seed heals and a last call must succeed (rig cli2, clirig/dead2.go)
+	for _, bh := range []string{"D", "R", "DD", "DA", "AD", "RA", "DR"} {
+		l = append(l, atomSc{"cli2?locks=1&beh=" + bh + "&n=2", b + 1})
+		if len(bh) == 2 {
+			l = append(l, atomSc{"cli2?locks=1&seeds=21&beh=" + bh + "&n=2", b + 1})
+		}
+	}
+	if thorough {
+		l = append(l, atomSc{"cli2?locks=1&beh=D&n=3", b}, atomSc{"cli2?locks=1&beh=DA&n=3", b}, atomSc{"cli2?locks=1&beh=DDA&n=2", b})
+	}
 	return l
 }
 
